@@ -15,7 +15,7 @@ for d in /verif/seeded/${1:-}*/; do
   else
     out=$(/verif/bin/govc check --property $prop --tier quick --repo $W/repo --out $W/out 2>&1)
     n=$(echo "$out" | grep -c "^VIOLATION")
-    if [ $n -gt 0 ]; then echo "$id $prop DETECTED violations=$n"; else echo "$id $prop MISSED $(echo "$out" | grep '^property=' )"; fi
+    if [ $n -gt 0 ]; then echo "$id $prop DETECTED violations=$n $(echo "$out" | grep "^verdicts:")"; else echo "$id $prop MISSED $(echo "$out" | grep '^property=' )"; fi
   fi
   git -C /repo worktree remove --force $W/repo; rm -rf $W
 done
